@@ -24,6 +24,9 @@ pub struct Built {
     pub mode: &'static str,
     /// expected TypeError variant(s) of the rejection
     pub expect: &'static str,
+    /// the same plant without the own nesting chain (shrinking)
+    pub flat_stmt: Option<V3>,
+    pub flat_prelude: Option<V3>,
 }
 
 pub struct Cx<'a> {
@@ -98,6 +101,8 @@ fn built_stmt(
         placement,
         mode,
         expect,
+        flat_stmt: Some(assemble(pieces, &[])),
+        flat_prelude: None,
     }
 }
 
@@ -318,6 +323,8 @@ pub fn const_import_base(cx: &mut Cx) -> Option<Built> {
         placement: "FnBody".into(),
         mode: "import-main",
         expect: "Assignability",
+        flat_stmt: None,
+        flat_prelude: None,
     })
 }
 
@@ -422,20 +429,26 @@ pub fn finish_pure(cx: &mut Cx, fr: &Frame, inner: Inner, kind: &'static str) ->
         None => std_prelude(),
     };
     let other = inner.import.as_ref().map(|_| (LIB_PATH.to_string(), V3::same(LIB_TEXT)));
+    let mut flat_stmt = None;
+    let mut flat_prelude = None;
     let (prog, stmt, placement) = match fr.mode {
         "base-pure" => {
             let pieces = Pieces { pre_in: inner.pre_in.clone(), core: inner.core.clone(), ..Default::default() };
+            flat_stmt = Some(assemble(&pieces, &[]));
             cx.finish_stmt(fr.site?, &pieces, &wraps)
         }
         "own-pu" => {
             let (head, tail) = own_head_tail(fr.form, &inner.extra);
             let pieces = Pieces { pre_out: inner.pre_out.clone(), head, pre_in: inner.pre_in.clone(), core: inner.core.clone(), tail };
+            flat_stmt = Some(assemble(&pieces, &[]));
             cx.finish_stmt(fr.site?, &pieces, &wraps)
         }
         _ => {
             let (head, tail) = own_head_tail(0, &inner.extra);
             let pieces = Pieces { pre_out: P2::default(), head, pre_in: inner.pre_in.clone(), core: inner.core.clone(), tail };
             let v = assemble(&pieces, &wraps);
+            let f = assemble(&pieces, &[]);
+            flat_prelude = Some(V3 { base: prelude.base.clone(), twin: format!("{}{}\n", prelude.twin, f.twin), bad: format!("{}{}\n", prelude.bad, f.bad) });
             prelude.twin = format!("{}{}\n", prelude.twin, v.twin);
             prelude.bad = format!("{}{}\n", prelude.bad, v.bad);
             (cx.prog.clone(), V3::default(), "GlobalPu".to_string())
@@ -457,6 +470,8 @@ pub fn finish_pure(cx: &mut Cx, fr: &Frame, inner: Inner, kind: &'static str) ->
         placement,
         mode: fr.mode,
         expect: inner.expect,
+        flat_stmt,
+        flat_prelude,
     })
 }
 
@@ -693,6 +708,8 @@ pub fn pure_expr(cx: &mut Cx, call: bool) -> Option<Built> {
         placement: placement_name(site.ctx.placement),
         mode: "base-pure",
         expect: "Impurity",
+        flat_stmt: None,
+        flat_prelude: None,
     })
 }
 
@@ -831,6 +848,8 @@ pub fn pu_base_arg(cx: &mut Cx) -> Option<Built> {
         placement: placement_name(site.ctx.placement),
         mode: if site.ctx.in_pure { "base-pure" } else { "impure-site" },
         expect: "Impurity",
+        flat_stmt: None,
+        flat_prelude: None,
     })
 }
 
